@@ -19,8 +19,10 @@ if [ ! -x "$VERIF/.cache/simrewrite" ] || [ "$VERIF/tools/simrewrite/main.go" -n
 fi
 (cd "$SCRATCH/bleve" && "$VERIF/.cache/simrewrite" -min-selects 12 -min-locks 150 -min-gos 15 -min-chanops 40 . index/scorch index/upsidedown search/collector) >&2
 # the KV store adapters: locks as above, plus a yield at the head of every loop (their batch loops have no
-# synchronisation inside, so without it a batch would always execute atomically under the scheduler)
-(cd "$SCRATCH/bleve/index/upsidedown/store" && "$VERIF/.cache/simrewrite" -loops -min-locks 5 boltdb goleveldb gtreap moss metrics) >&2
+# synchronisation inside, so without it a batch would always execute atomically under the scheduler). Only the
+# store / writer / reader / batch files: iterators stay as they are (gtreap's iterator feeds items through a helper
+# goroutine and a select per item, which would turn every item into several scheduling steps)
+(cd "$SCRATCH/bleve/index/upsidedown/store" && "$VERIF/.cache/simrewrite" -loops -only store.go,writer.go,reader.go,batch.go -min-locks 5 boltdb goleveldb gtreap moss metrics) >&2
 cd "$SCRATCH/sim"
 cat "$SCRATCH/bleve/go.sum" >> go.sum
 sort -u go.sum -o go.sum
